@@ -86,6 +86,10 @@ class ExcelInPython:
 
         def __ne__(self, other: Any) -> bool:
             return not self.__eq__(other)
+
+        def __str__(self) -> str:
+            # the text form of a blank is the empty text (blank & "x" is "x")
+            return ''
             
     def _parse_date_obj(self, date: str | datetime.datetime) -> datetime.datetime | None:
         if isinstance(date, datetime.datetime):
